@@ -660,6 +660,17 @@ func (q *TransferQueue) enqueueAndCollectRetriesFor(batch batch) (batch, error) 
 		}
 		handled[o.Oid] = struct{}{}
 
+		// An entry, even an error entry, for an OID that was never
+		// added to this queue finishes no pending transfer.
+		q.trMutex.Lock()
+		_, known := q.transfers[o.Oid]
+		q.trMutex.Unlock()
+		if !known {
+			q.errorc <- errors.New(tr.Tr.Get("[%v] The server returned an unknown OID.", o.Oid))
+			q.Skip(o.Size)
+			continue
+		}
+
 		if o.Error != nil {
 			q.errorc <- errors.Wrapf(o.Error, "[%v] %v", o.Oid, o.Error.Message)
 			q.Skip(o.Size)
